@@ -276,7 +276,25 @@ func solveAll(obs []*Obligation, timeout int, thorough bool) {
 	// an obligation no solver decided in time is tried once more, alone and with three times the time, before it is
 	// reported: under load (other checks running beside this one) a query that needs 15 s can miss a 60 s limit, and an
 	// undecided obligation on the unchanged tree would be a false alarm. A `sat` is never retried.
+	// The retry is for the odd query that load pushed over the limit, not for a tree on which the check fails anyway or
+	// on which a change has left many obligations undecidable: nothing is retried when an obligation has already failed
+	// for good, or when more than four are undecided (at most 4 x 3 x the limit is spent here).
+	undecided, failedForGood := 0, false
 	for _, o := range obs {
+		if o.ExpectSat || o.shortTimeout > 0 {
+			continue
+		}
+		switch o.Result {
+		case "unknown":
+			undecided++
+		case "sat", "failed":
+			failedForGood = true
+		}
+	}
+	for _, o := range obs {
+		if failedForGood || undecided > 4 {
+			break
+		}
 		if o.Script == "" || o.Result != "unknown" || o.ExpectSat || o.shortTimeout > 0 {
 			continue
 		}
